@@ -1722,6 +1722,12 @@ class FixedIncomeSecurity(SecurityBase):
     Only relevant when using :class:`FixedIncomeStrategy <bt.core.FixedIncomeStrategy>`.
     """
 
+    @cy.locals(multiplier=cy.double)
+    def __init__(self, name, multiplier=1, lazy_add=False):
+        super(FixedIncomeSecurity, self).__init__(name, multiplier=multiplier, lazy_add=lazy_add)
+        # notional weighted: a fixed income strategy rebalances it by notional (transact), not by market value
+        self._fixed_income = True
+
     @cy.locals(coupon=cy.double)
     def update(self, date, data=None, inow=None):
         """
